@@ -1,11 +1,16 @@
 #!/bin/bash
-# usage: trymutant.sh <patch> <prop> [vcheck args...]   — applies a patch to /repo, runs a check, reverts
-patch=$1; shift; prop=$1; shift
-cd /repo || exit 2
+# usage: trymutant.sh <patch> <prop> [vcheck args...]
+# Applies a patch to a scratch worktree of /repo's HEAD (never to /repo itself), runs the
+# check against that tree (VERIF_REPO) and removes the worktree again.
+patch=$(readlink -f "$1"); shift; prop=$1; shift
+wt=$(mktemp -d /tmp/mut-XXXXXX)
+git -C /repo worktree add -q --detach "$wt" HEAD || exit 2
+cleanup() { git -C /repo worktree remove --force "$wt" 2>/dev/null; rm -rf "$wt"; }
+trap cleanup EXIT
+cd "$wt" || exit 2
 if git apply --check "$patch" 2>/dev/null; then git apply "$patch"
 elif git apply -C1 --check "$patch" 2>/dev/null; then echo "(applied with -C1)"; git apply -C1 "$patch"
 else echo "PATCH DOES NOT APPLY: $patch"; exit 3; fi
-cd /verif && bin/vcheck $prop "$@"; rc=$?
-git -C /repo checkout -q -- . ; git -C /repo reset -q; git -C /repo clean -fdq
+cd /verif && VERIF_REPO="$wt" bin/vcheck $prop "$@"; rc=$?
 echo "rc=$rc"
 exit $rc
